@@ -377,7 +377,127 @@ func (t *tr) seq(list []ast.Stmt, retRecv bool) string {
 	return ""
 }
 
+// headers.First: a comma-ok map lookup, guards that return, and a final return of (string, []string, bool).
+// Fragment: `v, found := hdrs[k]`; `if c { return a, b, c }`; `return a, b, c`; conditions built from !, ||, &&,
+// identifiers and len(v) compared with an integer literal; values: "", nil, true, false, v[i] and v[:j] with literal i, j.
+func translateFirst(fd *ast.FuncDecl, gname string) string {
+	if fd.Recv != nil || src(fd.Type) != "func(hdrs http.Header, k string) (string, []string, bool)" {
+		fail(fd, "signature of First: %s", src(fd.Type))
+	}
+	kinds := map[string]string{"hdrs": "hdrs", "k": "str"}
+	var cond func(e ast.Expr) string
+	cond = func(e ast.Expr) string {
+		switch e := e.(type) {
+		case *ast.ParenExpr:
+			return "(" + cond(e.X) + ")"
+		case *ast.Ident:
+			if kinds[e.Name] == "bool" {
+				return v(e.Name)
+			}
+		case *ast.UnaryExpr:
+			if e.Op == token.NOT {
+				return "(negb " + cond(e.X) + ")"
+			}
+		case *ast.BinaryExpr:
+			switch e.Op {
+			case token.LOR:
+				return "(" + cond(e.X) + " || " + cond(e.Y) + ")"
+			case token.LAND:
+				return "(" + cond(e.X) + " && " + cond(e.Y) + ")"
+			case token.EQL, token.NEQ, token.LSS, token.GTR, token.LEQ, token.GEQ:
+				c, ok := e.X.(*ast.CallExpr)
+				lit, ok2 := e.Y.(*ast.BasicLit)
+				if ok && ok2 && ident(c.Fun) == "len" && len(c.Args) == 1 && kinds[ident(c.Args[0])] == "strs" && lit.Kind == token.INT {
+					a, b := "(Z.of_nat (length "+v(ident(c.Args[0]))+"))", "("+lit.Value+")%Z"
+					switch e.Op {
+					case token.EQL:
+						return "(" + a + " =? " + b + ")%Z"
+					case token.NEQ:
+						return "(negb (" + a + " =? " + b + ")%Z)"
+					case token.LSS:
+						return "(" + a + " <? " + b + ")%Z"
+					case token.GTR:
+						return "(" + b + " <? " + a + ")%Z"
+					case token.LEQ:
+						return "(" + a + " <=? " + b + ")%Z"
+					case token.GEQ:
+						return "(" + b + " <=? " + a + ")%Z"
+					}
+				}
+			}
+		}
+		fail(e, "First: condition %s", src(e))
+		return ""
+	}
+	val := func(e ast.Expr, k string) string {
+		switch e := e.(type) {
+		case *ast.Ident:
+			switch {
+			case e.Name == "nil" && k == "strs":
+				return "([] : list bytes)"
+			case (e.Name == "true" || e.Name == "false") && k == "bool":
+				return e.Name
+			case kinds[e.Name] == k:
+				return v(e.Name)
+			}
+		case *ast.BasicLit:
+			if e.Kind == token.STRING && k == "str" {
+				u, err := strconv.Unquote(e.Value)
+				if err == nil {
+					return bytesLit(u)
+				}
+			}
+		case *ast.IndexExpr:
+			if lit, ok := e.Index.(*ast.BasicLit); ok && lit.Kind == token.INT && kinds[ident(e.X)] == "strs" && k == "str" {
+				return "(nth " + lit.Value + " " + v(ident(e.X)) + " ([] : bytes))"
+			}
+		case *ast.SliceExpr:
+			if lit, ok := e.High.(*ast.BasicLit); ok && e.Low == nil && e.Max == nil && lit.Kind == token.INT && kinds[ident(e.X)] == "strs" && k == "strs" {
+				return "(firstn " + lit.Value + " " + v(ident(e.X)) + ")"
+			}
+		}
+		fail(e, "First: value %s", src(e))
+		return ""
+	}
+	ret := func(s *ast.ReturnStmt) string {
+		if len(s.Results) != 3 {
+			fail(s, "First: return")
+		}
+		return "(" + val(s.Results[0], "str") + ", " + val(s.Results[1], "strs") + ", " + val(s.Results[2], "bool") + ")"
+	}
+	var seq func(list []ast.Stmt) string
+	seq = func(list []ast.Stmt) string {
+		if len(list) == 0 {
+			fail(fd, "First: control reaches the end")
+		}
+		switch s := list[0].(type) {
+		case *ast.AssignStmt:
+			if s.Tok == token.DEFINE && len(s.Lhs) == 2 && len(s.Rhs) == 1 {
+				if ie, ok := s.Rhs[0].(*ast.IndexExpr); ok && kinds[ident(ie.X)] == "hdrs" && kinds[ident(ie.Index)] == "str" {
+					a, b := ident(s.Lhs[0]), ident(s.Lhs[1])
+					kinds[a], kinds[b] = "strs", "bool"
+					return "let '(" + v(a) + ", " + v(b) + ") := map_lookup2 " + v(ident(ie.X)) + " " + v(ident(ie.Index)) + " in\n  " + seq(list[1:])
+				}
+			}
+		case *ast.IfStmt:
+			if s.Init == nil && s.Else == nil && len(s.Body.List) == 1 {
+				if r, ok := s.Body.List[0].(*ast.ReturnStmt); ok {
+					return "if " + cond(s.Cond) + " then " + ret(r) + "\n  else (" + seq(list[1:]) + ")"
+				}
+			}
+		case *ast.ReturnStmt:
+			return ret(s)
+		}
+		fail(list[0], "First: statement %s", src(list[0]))
+		return ""
+	}
+	return fmt.Sprintf("Definition %s (v_hdrs : hmap) (v_k : bytes) : bytes * list bytes * bool :=\n  %s.\n", gname, seq(fd.Body.List))
+}
+
 func translate(pkg string, fd *ast.FuncDecl, gname string) string {
+	if gname == "go_headers_First" {
+		return translateFirst(fd, gname)
+	}
 	t := &tr{pkg: pkg, fn: gname, vars: map[string]string{}}
 	params := ""
 	retRecv := false
@@ -461,7 +581,7 @@ func main() {
 	}
 	repo, out := os.Args[1], os.Args[2]
 	header := "(* GENERATED by tools/genutil from internal/util, internal/methods and internal/headers on every run -- do not edit. *)\n" +
-		"Require Import Base.Bytes Gen.Tables Model.Util Model.UtilRt.\nOpen Scope bool_scope.\n\n"
+		"Require Import Base.Bytes Gen.Tables Model.Util Model.Headers Model.UtilRt.\nOpen Scope bool_scope.\n\n"
 	jobs := []job{
 		{"internal/util/bytecase.go", "util", [][2]string{{"ByteLowercase", "go_ByteLowercase"}, {"ByteUppercase", "go_ByteUppercase"}}, true},
 		{"internal/util/sortedset.go", "util", [][2]string{{"SortedSet.Add", "go_SortedSet_Add"}, {"SortedSet.Size", "go_SortedSet_Size"}, {"SortedSet.MaxLen", "go_SortedSet_MaxLen"}, {"SortedSet.IndexAfter", "go_SortedSet_IndexAfter"}, {"SortedSet.ToSlice", "go_SortedSet_ToSlice"}}, true},
@@ -469,7 +589,7 @@ func main() {
 		{"internal/methods/methods.go", "methods", [][2]string{{"IsValid", "go_methods_IsValid"}, {"IsForbidden", "go_methods_IsForbidden"}, {"IsSafelisted", "go_methods_IsSafelisted"}, {"Normalize", "go_methods_Normalize"}}, true},
 		{"internal/headers/req.go", "headers", [][2]string{{"IsForbiddenRequestHeaderName", "go_IsForbiddenRequestHeaderName"}, {"IsProhibitedRequestHeaderName", "go_IsProhibitedRequestHeaderName"}}, true},
 		{"internal/headers/res.go", "headers", [][2]string{{"IsForbiddenResponseHeaderName", "go_IsForbiddenResponseHeaderName"}, {"IsProhibitedResponseHeaderName", "go_IsProhibitedResponseHeaderName"}, {"IsSafelistedResponseHeaderName", "go_IsSafelistedResponseHeaderName"}}, true},
-		{"internal/headers/common.go", "headers", [][2]string{{"IsValid", "go_headers_IsValid"}}, false},
+		{"internal/headers/common.go", "headers", [][2]string{{"IsValid", "go_headers_IsValid"}, {"First", "go_headers_First"}}, false},
 		{"internal/headers/ows.go", "headers", [][2]string{{"isOWS", "go_isOWS"}}, false},
 	}
 	var sb strings.Builder
